@@ -416,6 +416,6 @@ func main() {
 		}
 	}
 	res.Info["configs"] = info
-	res.DistinctNontrivial = int64(len(outcomes))
+	res.SetDistinctKeys(outcomes)
 	res.Finish()
 }
